@@ -9,6 +9,7 @@ package c01forms
 import (
 	exta "github.com/awalterschulze/goderive/vxfix/static/c01forms/exta/ext"
 	extb "github.com/awalterschulze/goderive/vxfix/static/c01forms/extb/ext"
+	"github.com/awalterschulze/goderive/vxfix/static/c01forms/extc/ext2"
 	"github.com/awalterschulze/goderive/vxlib/vx"
 )
 
@@ -104,4 +105,27 @@ func VX_C01_form_imported() {
 	y := vx.NondetOpt[*Both]("y", "len=1,cap=0,map=1,str=1")
 	vx.Assert(deriveEqualBoth(x, y) == refEqBoth(x, y), "Equal over structs imported from same-named packages")
 	vx.Assert(deriveHashBoth(x) == deriveHashBoth(x), "Hash over imported structs is repeatable")
+}
+
+// imported structs with unexported fields (reflect+unsafe access path): front-end only - the generated code must
+// type-check; it is not executed symbolically (reflect/unsafe are outside the encoder).
+func usePrivate(a, b *ext2.Head, c, d *ext2.Tail) (bool, int, bool) {
+	deriveDeepCopyHead(a, b)
+	return deriveEqualHead(a, b), deriveCompareTail(c, d), deriveEqualTail(c, d)
+}
+
+// nested derive call behind an argument of basic type: the call can only be typed after an earlier generation pass
+func VX_C01_form_nested2() {
+	x := vx.Nondet[*Node]("x")
+	n := vx.Nondet[int]("n")
+	a, b := deriveTupleN(n, deriveCloneNode(x))()
+	vx.Assert(a == n && deriveEqualNode(b, x), "tuple of a basic value and a nested derive result")
+}
+
+// the nested derive call occurs ONLY as a later argument, after an argument of basic type
+func VX_C01_form_nested3() {
+	m := vx.Nondet[map[string]int]("m")
+	n := vx.Nondet[int]("n")
+	a, ks := deriveTupleK(n, deriveKeysK(m))()
+	vx.Assert(a == n && len(ks) == len(m), "tuple of a basic value and the keys of a map (nested call typed only after the first pass)")
 }
